@@ -33,6 +33,8 @@ pub struct Workload {
     pub shx_ops: Vec<Op>,
     pub shp_n: Vec<usize>,
     pub shx_n: Vec<usize>,
+    /// crash points start after this many operations (0 unless the destinations were used before)
+    pub first_cut: (usize, usize),
 }
 
 /// run a history over {a, b, F} (+ final drop) on the real writer, logging the operations.
@@ -88,7 +90,46 @@ fn perform_on<T: std::io::Write + std::io::Seek>(c: &Conc, hist: &str, syms: &Sy
     while shx_n.len() < shx.nops() {
         shx_n.push(accepted.len());
     }
-    Workload { shapes: accepted, shp_ops: shp.ops(), shx_ops: shx.ops(), shp_n, shx_n }
+    Workload { shapes: accepted, shp_ops: shp.ops(), shx_ops: shx.ops(), shp_n, shx_n, first_cut: (0, 0) }
+}
+
+/// the same on destinations that an EARLIER writer filled with a longer, valid shapefile (in-memory buffers cannot be
+/// truncated): its operations come first in the logs and commit nothing of this session; crash points start once the
+/// new writer has put its own header in place on both files (before that the old file is simply still there)
+pub fn perform_reused(c: &Conc, hist: &str, syms: &Syms) -> Workload {
+    let shp = LogDest::new();
+    let shx = LogDest::new();
+    {
+        // the old file holds records of the SAME SIZES in the same order as the new history will write them (other
+        // coordinates), and three more: whatever of it survives lies exactly where a record could start
+        let swap = |a: &AShape| -> AShape {
+            let mut o = a.clone();
+            for part in o.parts.iter_mut() {
+                for p in part.iter_mut() {
+                    *p = [p[1], p[0], p[2], p[3]];
+                }
+            }
+            o
+        };
+        let (a2, b2) = (build(c, &swap(&syms.a)), build(c, &swap(&syms.b)));
+        let mut old = ShapeWriter::with_shx(shp.clone(), shx.clone());
+        let seq: String = hist.chars().filter(|ch| *ch == 'a' || *ch == 'b').chain("aba".chars()).collect();
+        for ch in seq.chars() {
+            let s = if ch == 'a' { &a2 } else { &b2 };
+            let _ = with_inner!(s, v => old.write_shape(v), Ok(()));
+        }
+    }
+    let (n1, n2) = (shp.nops(), shx.nops());
+    let w = ShapeWriter::with_shx(shp.clone(), shx.clone());
+    let mut wl = perform_on(c, hist, syms, w, shp, shx);
+    for n in wl.shp_n.iter_mut().take(n1) { *n = 0; }
+    for n in wl.shx_n.iter_mut().take(n2) { *n = 0; }
+    let after_header = |ops: &[Op], from: usize| -> usize {
+        // (the header goes out as many small writes: the one that ends at byte 100 completes it)
+        ops.iter().enumerate().skip(from).find(|(_, o)| matches!(o, Op::Write { pos, data } if *pos as usize + data.len() == 100)).map(|(i, _)| i + 1).unwrap_or(ops.len())
+    };
+    wl.first_cut = (after_header(&wl.shp_ops, n1), after_header(&wl.shx_ops, n2));
+    wl
 }
 
 /// all (i, c): i complete operations plus c bytes of operation i+1 (c = 0: none)
@@ -141,13 +182,15 @@ pub fn run(a: &Args) {
         let t = if wi == 1 { 1 } else if wi == 4 { 21 } else { t };
         let syms = if wi % 2 == 0 { model_syms(t, other_type(t, 0)) } else { random_syms(&mut r, t, other_type(t, 0)) };
         let buffered = wi % 3 == 2;
-        let w = perform(c, hist, &syms, buffered);
+        // the last two workloads run on destinations an earlier writer had filled
+        let reused = wi + 2 >= nwork && nwork >= 4;
+        let w = if reused { perform_reused(c, hist, &syms) } else { perform(c, hist, &syms, buffered) };
         let n = w.shapes.len();
-        traces[i].run(json!({"ev": "workload", "kind": "crash", "t": t, "hist": hist, "buffered": buffered,
+        traces[i].run(json!({"ev": "workload", "kind": "crash", "t": t, "hist": hist, "buffered": buffered && !reused, "reused": reused,
             "shapes": w.shapes.iter().map(|s| s.to_json()).collect::<Vec<_>>(),
             "shpOps": ops_json(&w.shp_ops, &w.shp_n), "shxOps": ops_json(&w.shx_ops, &w.shx_n)}));
-        let sc = cuts(&w.shp_ops);
-        let xc = cuts(&w.shx_ops);
+        let sc: Vec<(usize, usize)> = cuts(&w.shp_ops).into_iter().filter(|x| x.0 >= w.first_cut.0).collect();
+        let xc: Vec<(usize, usize)> = cuts(&w.shx_ops).into_iter().filter(|x| x.0 >= w.first_cut.1).collect();
         let full = wi < full_pairs;
         let mut emit = |tr: &mut Trace, (si, sc_): (usize, usize), (xi, xc_): (usize, usize), with_idx: bool, random: bool| {
             let sb = replay_prefix(&w.shp_ops, si, sc_);
@@ -164,6 +207,17 @@ pub fn run(a: &Args) {
                            "shpLen": sb.len(), "shxLen": xb.len(), "res": res, "byPath": by_path}));
         };
         for &s in &sc {
+            if reused {
+                // On destinations that still hold an older file only cuts at operation boundaries of the .shp, read
+                // WITHOUT the index, are examined: a torn length field, or an index that is ahead of the .shp, can
+                // make any reader find the old records where new ones would be -- nothing a writer over a
+                // destination it cannot truncate could prevent.
+                if s.1 == 0 {
+                    emit(&mut traces[i], s, (0, 0), false, false);
+                    cases += 1;
+                }
+                continue;
+            }
             // without the index the .shx plays no part
             emit(&mut traces[i], s, (0, 0), false, false);
             cases += 1;
@@ -182,7 +236,7 @@ pub fn run(a: &Args) {
                 cases += 3;
             }
         }
-        if !full {
+        if !full && !reused {
             for &x in &xc {
                 emit(&mut traces[i], (w.shp_ops.len(), 0), x, true, false);
                 let s1 = *r.pick(&sc);
